@@ -42,7 +42,7 @@ def rule_inputs_side_by_side(src, rep, km, counts):
     import itertools
     from .. import osmodel
     from ..consteval import Record
-    from ..objinterp import NativeFunc
+    from ..objinterp import NativeFunc, Obj
     it = km.it
     f = src.func("input", "Input.__init__")
     want = {"CURTSIES": ["<UP>", "a", "<F1>"], "CURSES": ["KEY_UP", "a", "KEY_F(1)"], "BYTES": [b"\x1b[A", b"a", b"\x1bOP"]}
@@ -73,6 +73,40 @@ def rule_inputs_side_by_side(src, rep, km, counts):
         bad = {m: got[m] for m in order if got[m] != want[m]}
         rep.ob("N6-naming-mode-belongs-to-the-input-object", f.where(), "input:Input", "Inputs created in the order %s, each fed ESC[A a ESC O P" % (order,),
                not bad, "the Input(s) %s returned %s; expected %s" % (sorted(bad), bad, {m: want[m] for m in bad}), witness={"order": list(order)})
+    # a burst read in one go comes back as a paste event: its keypresses are named in the Input's own mode too, and are cut alike
+    burst = b"print \x1b[A\xc3\xa9x"
+    want = {"CURTSIES": ["p", "r", "i", "n", "t", "<SPACE>", "<UP>", "\xe9", "x"],
+            "BYTES": [b"p", b"r", b"i", b"n", b"t", b" ", b"\x1b[A", b"\xc3\xa9", b"x"]}
+    got = {}
+    for mode in ("CURTSIES", "CURSES", "BYTES"):
+        it.folder.overrides.clear()
+        it.folder.__dict__.pop("_class_attrs", None)
+        osm = osmodel.OS()
+        osmodel.install(it, osm)
+        inp = it.new("input", "Input", in_stream=Record(fileno=NativeFunc(lambda a, k: 0), name="<stdin>"), keynames=km.modes[mode])
+        mark = it.checkpoint()
+        r = it.callm(inp, "__enter__")
+        if r[0] != "ok":
+            raise AnalysisError("Input.__enter__ gives %s" % (r,))
+        osm.data.setdefault(0, []).append(burst)
+        r = it.callm(inp, "send", 0)
+        if r[0] == "opaque":
+            raise AnalysisError("Input.send outside the evaluated subset: %s" % r[1])
+        if it.dirty(mark):
+            raise AnalysisError("Input.send: %s" % it.dirty(mark))
+        ev = r[1] if r[0] == "ok" else r
+        got[mode] = list(ev.fields.get("events", [])) if isinstance(ev, Obj) and ev.cls == "PasteEvent" else ev
+        it.callm(inp, "__exit__", None, None, None)
+        n += 1
+        rep.case(True)
+    problems = []
+    for mode in ("CURTSIES", "BYTES"):
+        if got[mode] != want[mode]:
+            problems.append("%s naming gives %r, expected %r" % (mode, got[mode], want[mode]))
+    if not (isinstance(got["CURSES"], list) and len(got["CURSES"]) == len(want["BYTES"])):
+        problems.append("CURSES naming cuts the burst into %s keypress(es): %r; the other modes into %d" % (len(got["CURSES"]) if isinstance(got["CURSES"], list) else "?", got["CURSES"], len(want["BYTES"])))
+    rep.ob("N6-paste-events-are-named-in-the-inputs-mode", f.where(), "input:Input", "a 13-byte burst read in one go under each naming mode",
+           not problems, "; ".join(problems), witness={"burst": repr(burst)})
     it.folder.overrides.clear()
     counts["side_by_side"] = n
 
